@@ -131,4 +131,126 @@ theorem run_ok (le : α → α → Prop) (P : Params α ρ S δ) (hd : DrawOK le
   rw [hconf] at this
   exact this
 
+/-! ## re-entrancy -/
+section reentrant
+variable {U σ : Type}
+
+theorem pwvLoopM_pure (step : S → U → S) (valid : S → Bool) (cb : σ → S → Bool × σ)
+    (hcb : ∀ w s, (cb w s).1 = valid s) (u : U) :
+    ∀ fuel i cur w, (pwvLoopM step cb u fuel i cur w).1 = pwvLoop step valid u fuel i cur := by
+  intro fuel
+  induction fuel with
+  | zero => intro i cur w; rfl
+  | succ fuel ih =>
+    intro i cur w
+    simp only [pwvLoopM, pwvLoop, hcb]
+    split
+    · exact ih _ _ _
+    · rfl
+
+theorem pwvM_pure (step : S → U → S) (valid : S → Bool) (cb : σ → S → Bool × σ)
+    (hcb : ∀ w s, (cb w s).1 = valid s) (s : S) (u : U) (n : Nat) (w : σ) :
+    (pwvM step cb s u n w).1 = pwv step valid s u n := by
+  cases n with
+  | zero => rfl
+  | succ n =>
+    simp only [pwvM, pwv, hcb]
+    split
+    · exact pwvLoopM_pure step valid cb hcb u _ _ _ _
+    · rfl
+
+theorem pwvLoop_bounds (step : S → U → S) (valid : S → Bool) (u : U) :
+    ∀ fuel i cur, i ≤ (pwvLoop step valid u fuel i cur).1 ∧ (pwvLoop step valid u fuel i cur).1 ≤ i + fuel := by
+  intro fuel
+  induction fuel with
+  | zero => intro i cur; simp [pwvLoop]
+  | succ fuel ih =>
+    intro i cur
+    simp only [pwvLoop]
+    split
+    · have := ih (i + 1) (step cur u); omega
+    · simp
+
+/-- number of validity queries of one call: `min (r + 1) steps` -/
+def queries (r steps : Nat) : Nat := min (r + 1) steps
+
+theorem nest_if_aux {β : Type} (c k q : Nat) (X rec : β) :
+    (c + 1 + q, if c + 1 ≤ k ∧ k < c + 1 + q then X else if c = k then X else rec) =
+      (c + (1 + q), if c ≤ k ∧ k < c + (1 + q) then X else rec) := by
+  refine Prod.ext (by show c + 1 + q = c + (1 + q); omega) ?_
+  show (if c + 1 ≤ k ∧ k < c + 1 + q then X else if c = k then X else rec) = (if c ≤ k ∧ k < c + (1 + q) then X else rec)
+  by_cases h1 : c + 1 ≤ k ∧ k < c + 1 + q
+  · rw [if_pos h1, if_pos (by omega)]
+  · rw [if_neg h1]
+    by_cases h2 : c = k
+    · rw [if_pos h2, if_pos (by omega)]
+    · rw [if_neg h2, if_neg (by omega)]
+
+theorem pwvLoopM_nest {β : Type} (step : S → U → S) (valid : S → Bool) (k : Nat) (x : β) (u : U) :
+    ∀ fuel i cur c rec,
+      (pwvLoopM step (nestCbX valid k x) u fuel i cur (c, rec)).2 =
+        (c + queries ((pwvLoop step valid u fuel i cur).1 - i) fuel,
+         if c ≤ k ∧ k < c + queries ((pwvLoop step valid u fuel i cur).1 - i) fuel then some x else rec) := by
+  intro fuel
+  induction fuel with
+  | zero =>
+    intro i cur c rec
+    have hq : queries (i - i) 0 = 0 := by simp [queries]
+    simp only [pwvLoopM, pwvLoop, hq]
+    rw [if_neg (by omega)]
+    rfl
+  | succ fuel ih =>
+    intro i cur c rec
+    simp only [pwvLoopM, pwvLoop, nestCbX]
+    by_cases hv : valid (step cur u) = true
+    · simp only [hv, if_true]
+      rw [ih]
+      have hge := pwvLoop_bounds step valid u fuel (i + 1) (step cur u)
+      have e : queries ((pwvLoop step valid u fuel (i + 1) (step cur u)).1 - i) (fuel + 1) =
+          1 + queries ((pwvLoop step valid u fuel (i + 1) (step cur u)).1 - (i + 1)) fuel := by
+        simp only [queries]; omega
+      rw [e]
+      exact nest_if_aux c k _ _ rec
+    · have hv' : valid (step cur u) = false := by simpa using hv
+      simp only [hv', Bool.false_eq_true, if_false]
+      have hq : queries (i - i) (fuel + 1) = 1 := by simp only [queries, Nat.sub_self]; omega
+      rw [hq]
+      refine Prod.ext rfl ?_
+      show (if c = k then some x else rec) = (if c ≤ k ∧ k < c + 1 then some x else rec)
+      by_cases h2 : c = k
+      · rw [if_pos h2, if_pos (by omega)]
+      · rw [if_neg h2, if_neg (by omega)]
+
+theorem pwvM_nestX {β : Type} (step : S → U → S) (valid : S → Bool) (k : Nat) (x : β) (s : S) (u : U) (n : Nat) :
+    pwvM step (nestCbX valid k x) s u n (0, none) =
+      (pwv step valid s u n,
+       (queries (pwv step valid s u n).1 n, if k < queries (pwv step valid s u n).1 n then some x else none)) := by
+  have h1 := pwvM_pure step valid (nestCbX valid k x) (fun w s => by cases w; rfl) s u n (0, none)
+  refine Prod.ext h1 ?_
+  cases n with
+  | zero => simp [pwvM, queries]
+  | succ n =>
+    simp only [pwvM, pwv, nestCbX]
+    by_cases hv : valid (step s u) = true
+    · simp only [hv, if_true]
+      rw [pwvLoopM_nest]
+      have hge := pwvLoop_bounds step valid u n 1 (step s u)
+      have e : queries (pwvLoop step valid u n 1 (step s u)).1 (n + 1) =
+          1 + queries ((pwvLoop step valid u n 1 (step s u)).1 - 1) n := by
+        simp only [queries]; omega
+      rw [e]
+      have := nest_if_aux 0 k (queries ((pwvLoop step valid u n 1 (step s u)).1 - 1) n) (some x) (none : Option β)
+      simpa using this
+    · have hv' : valid (step s u) = false := by simpa using hv
+      simp only [hv', Bool.false_eq_true, if_false]
+      have hq : queries 0 (n + 1) = 1 := by simp only [queries]; omega
+      rw [hq]
+      refine Prod.ext rfl ?_
+      show (if 0 = k then some x else none) = (if k < 1 then some x else none)
+      by_cases h2 : 0 = k
+      · rw [if_pos h2, if_pos (by omega)]
+      · rw [if_neg h2, if_neg (by omega)]
+
+end reentrant
+
 end OmplModel.ControlReconf
